@@ -47,6 +47,7 @@ inductive Op where
   | smDel (i : Int)
   | smMin
   | smFree
+  | mpInit (size : Nat)
   | mpMalloc
   | mpFree (id : Nat)
   | mpFreenth (j : Nat)
@@ -318,6 +319,11 @@ def monStep (s : S) (op : Op) (a : Ans) : S × Verdict :=
     | none => skipOr "answer without a map"
     | some _ => ({ s with sm := none }, if a.isJust .ok then none else some "answer")
   -- -------------------------------------------------------------- object pool
+  | .mpInit _ =>
+    -- the harness ends the current pool (exit handler; objects in use are the caller's and are freed by it) and takes the
+    -- pool of the requested cache size; the rules below hold for every cache size.  (`skip`: black-box harness whose
+    -- pools are gone for good.)
+    if a.isJust .ok then ({ s with inUse := [] }, none) else skipOr "answer"
   | .mpMalloc =>
     match a.head, a.rf with
     | .ok, some rfn =>
